@@ -43,7 +43,14 @@ class Hooks:
         return [("val", default, st)]
 
     def exc_attr(self, eng, st, ref, name):
-        raise Unsupported(f"attribute {name} of exception {ref!r}")
+        """an attribute of an exception object of arbitrary class that the model knows nothing about: it may not exist (AttributeError), or hold
+        an arbitrary value (possibly None) - both outcomes are explored; the value is remembered so that a second read sees the same one"""
+        if name.startswith("__"):
+            raise Unsupported(f"attribute {name} of exception {ref!r}")
+        s_missing = st.fork()
+        v = mk_opt(z3.Bool(fresh_name(f"exc.{name}.is_none")), fresh("any", f"exc_{name}"))
+        st.setfield(ref, name, v)
+        return [("val", v, st)] + eng.raise_ext(s_missing, "AttributeError", name)
 
     def opaque_call(self, eng, st, fn, args, kwargs):
         """default: an unknown callable returns an arbitrary value or raises an arbitrary exception; recorded in the trace"""
